@@ -24,6 +24,23 @@ class Subject:
         self.features = (f"layout={self.layout}", f"missing={self.style}" if any(r is None for r in self.content["rows"]) else "missing=none",
                          f"n={min(n, 9)}")
 
+    def adopt(self, ctx, ext, rows, tag="hist"):
+        """continue with the storage an in-place history left in `ext` (content `rows`)"""
+        self.content = {"ty": self.ty, "rows": rows}
+        self.ca = ext._chunked_array
+        self.ext = gen.mk_ext(self.ca)
+        self.phys = export.export_ext(self.ext)
+        a = ctx.driver.call("abs", col=self.phys)
+        self.hyp = a["model"]["hyp"] if "model" in a else a["hyp"]
+        self.abs_rows = (a["model"] if "model" in a else a)["col"]["rows"]
+        if weak_rows(self.abs_rows) == weak_rows(rows):
+            # boxing a DataFrame turns NaN into null (`from_pandas=True`): continue with the exact cells stored
+            self.content = {"ty": self.ty, "rows": self.abs_rows}
+        self.layout = f"{self.layout}+{tag}"
+        n = len(rows)
+        self.features = (f"layout={self.layout}", f"missing={self.style}" if any(r is None for r in rows) else "missing=none",
+                         f"n={min(n, 9)}")
+
     def fresh_ext(self):
         """a new extension array object over the same storage (operations that mutate get their own)."""
         return gen.mk_ext(self.ca)
